@@ -16,6 +16,9 @@ import (
 // Enum is the one enum type of the universe: a named int64 annotated with its own name.
 type Enum int64
 
+// IntEnum is a hand-written enum: a named type whose underlying type is int rather than int64.
+type IntEnum int
+
 var (
 	tBool   = reflect.TypeOf(false)
 	tI8     = reflect.TypeOf(int8(0))
@@ -48,7 +51,12 @@ func goElemType(t *ref.Type) reflect.Type {
 	case ref.KI32:
 		return tI32
 	case ref.KI64:
-		if t.Named {
+		switch {
+		case t.GoInt && t.Named:
+			return reflect.TypeOf(IntEnum(0))
+		case t.GoInt:
+			return reflect.TypeOf(int(0))
+		case t.Named:
 			return tEnum
 		}
 		return tI64
@@ -65,6 +73,9 @@ func goElemType(t *ref.Type) reflect.Type {
 		}
 		return tBytes
 	case ref.KEnum:
+		if t.GoInt {
+			return reflect.TypeOf(IntEnum(0))
+		}
 		return tEnum
 	case ref.KStruct:
 		return StructGoType(t.St)
